@@ -227,6 +227,143 @@ def run(ctx, prop_id: str) -> int:
                                f"'{u}' is never read in {fi.name}, and its call of {g.qualname} (line {call_.lineno}) leaves the "
                                f"helper's own '{u}' at its default: the caller's value is ignored", fi, call_.lineno,
                                alias_exact=True)
+    _more_pitfalls(ctx, prop_id, files, by_name)
     ctx.ob("CLO-1", f"{prop_id}: functions of the anchored files scanned for late-binding closures and iterator-valued fields",
            True, f"{n} functions", nontrivial=False)
     return n
+
+
+# parameters that are not read in the pinned tree, confirmed by reading: kept for call compatibility with a sibling entry
+# point or an external interface.  (function, parameter): reason
+_DEAD_PARAMS_CONFIRMED = {
+    ("driver.fp_afqmc", "observable"): "same signature as driver.afqmc; free projection samples no observable",
+    ("linalg_utils.modified_cholesky", "norb"): "historic argument, the size is taken from the matrix",
+    ("pyscf_interface.getCollocationMatrices", "grid_level"): "grid built by the caller-supplied mol; level unused upstream",
+    ("sampling.sampler.propagate_phaseless_ad_1", "coupling"): "one-argument AD variant differentiates w.r.t. the operator only",
+    ("sampling.sampler.propagate_phaseless", "ham"): "same signature as the AD entry points, which rebuild intermediates",
+    ("sampling.sampler.propagate_free", "ham"): "same signature as the AD entry points, which rebuild intermediates",
+    ("wavefunctions.wave_function_auto._build_measurement_intermediates", "wave_data"): "AD trials need no half rotation",
+    ("config.not_a_comm.Reduce", "op"): "serial stand-in for the MPI communicator",
+    ("config.not_a_comm.Reduce", "root"): "serial stand-in for the MPI communicator",
+    ("config.not_a_comm.Gather", "root"): "serial stand-in for the MPI communicator",
+    ("config.not_a_comm.Scatter", "root"): "serial stand-in for the MPI communicator",
+}
+
+
+def _is_stub(node) -> bool:
+    body = [st for st in node.body if not (isinstance(st, ast.Expr) and isinstance(st.value, ast.Constant))]
+    if not body:
+        return True
+    if len(body) == 1 and isinstance(body[0], (ast.Pass, ast.Raise)):
+        return True
+    if len(body) == 1 and isinstance(body[0], ast.Return) and (body[0].value is None or isinstance(body[0].value, (
+            ast.Constant, ast.Name, ast.Tuple, ast.List, ast.Dict))):
+        return True          # returns a literal / hands an argument back: an interface default
+    return False
+
+
+def _is_jitted(fi) -> bool:
+    for d in getattr(fi.node, "decorator_list", []):
+        for n_ in ast.walk(d):
+            if (isinstance(n_, ast.Name) and n_.id == "jit") or (isinstance(n_, ast.Attribute) and n_.attr == "jit"):
+                return True
+    return False
+
+
+def _returns_value_everywhere(fi) -> bool:
+    own = []
+
+    def walk(n_):
+        for c_ in ast.iter_child_nodes(n_):
+            if isinstance(c_, (ast.FunctionDef, ast.AsyncFunctionDef, ast.Lambda)):
+                continue
+            if isinstance(c_, ast.Return):
+                own.append(c_)
+            walk(c_)
+    walk(fi.node)
+    return bool(own) and all(r.value is not None and not (isinstance(r.value, ast.Constant) and r.value.value is None)
+                             for r in own)
+
+
+def _more_pitfalls(ctx, prop_id, files, by_name):
+    """DISCARD-1, PARAM-1, TRI-1 over the files the property is anchored in."""
+    p = ctx.p
+    for mod in p.modules.values():
+        if not any(f.endswith(os.path.basename(mod.path)) for f in files):
+            continue
+        fis = list(mod.functions.values()) + [m for c in p.classes.values() if c.module == mod.name for m in c.methods.values()]
+        for fi in fis:
+            if isinstance(fi.node, ast.Lambda):
+                continue
+            # DISCARD-1: a jit-compiled function is pure -- whatever it does to its arguments happens on traced copies --
+            # so a bare call statement of one that returns a value has no effect at all: the update it computes is lost
+            for st in ast.walk(fi.node):
+                if isinstance(st, ast.Expr) and isinstance(st.value, ast.Call):
+                    f_ = st.value.func
+                    nm = f_.id if isinstance(f_, ast.Name) else f_.attr if isinstance(f_, ast.Attribute) else None
+                    cands = [c for c in by_name.get(nm or "", []) if c is not fi]
+                    if isinstance(f_, ast.Attribute) and not (isinstance(f_.value, ast.Name) and f_.value.id in (
+                            "self", "cls", "trial", "prop", "propagator", "ham", "sampler", "sr", "linalg_utils", "wavefunctions",
+                            "propagation", "sampling", "hamiltonian", "stat_utils")):
+                        # a method of some other object (list.append, comm.Barrier, fh5.create_dataset ...)
+                        if not cands or not all(c.cls for c in cands):
+                            continue
+                    if cands and all(_is_jitted(c) and _returns_value_everywhere(c) for c in cands):
+                        ctx.ob("DISCARD-1", f"{fi.qualname}: the value returned by the jit-compiled {nm} is used", False,
+                               f"`{ast.unparse(st)[:70]}` is a bare call statement: {cands[0].qualname} is jit-compiled (pure) and "
+                               f"returns its result, so the call changes nothing and the result is dropped", fi, st.lineno,
+                               alias_exact=True)
+            # TRI-1: tril(X) + tril(X).T (both triangles taken with the diagonal) counts the diagonal twice
+            for st in ast.walk(fi.node):
+                if isinstance(st, ast.BinOp) and isinstance(st.op, ast.Add):
+                    def tri_of(n_):
+                        """(tri function name, unparsed operand) for tril(X) / triu(X) with the diagonal included"""
+                        if isinstance(n_, ast.Call) and (dotted(n_.func) or "").split(".")[-1] in ("tril", "triu") and n_.args:
+                            k_ = n_.args[1] if len(n_.args) > 1 else next((kw.value for kw in n_.keywords if kw.arg == "k"), None)
+                            if k_ is None or (isinstance(k_, ast.Constant) and k_.value == 0):
+                                return (dotted(n_.func) or "").split(".")[-1], ast.unparse(n_.args[0])
+                        return None
+
+                    def transposed(n_):
+                        if isinstance(n_, ast.Attribute) and n_.attr in ("T", "mT"):
+                            return n_.value
+                        if isinstance(n_, ast.Call) and (dotted(n_.func) or "").split(".")[-1] in ("transpose", "swapaxes") and n_.args:
+                            return n_.args[0]
+                        if isinstance(n_, ast.Call) and isinstance(n_.func, ast.Attribute) and n_.func.attr in (
+                                "transpose", "swapaxes"):
+                            return n_.func.value
+                        return None
+                    for a_, b_ in ((st.left, st.right), (st.right, st.left)):
+                        ta = tri_of(a_)
+                        tb_src = transposed(b_)
+                        tb = tri_of(tb_src) if tb_src is not None else None
+                        if ta and tb and ta == tb:
+                            ctx.ob("TRI-1", f"{fi.qualname}: a matrix rebuilt from one triangle counts its diagonal once", False,
+                                   f"`{ast.unparse(st)[:80]}`: both {ta[0]}({ta[1]}) and its transpose contain the diagonal, which "
+                                   f"is therefore doubled (the mirrored triangle must exclude it, k=-1 / k=1)", fi, st.lineno,
+                                   alias_exact=True)
+                            break
+            # PARAM-1: a parameter that a function accepts and never reads
+            if fi.is_abstract or _is_stub(fi.node):
+                continue
+            reads = {n_.id for n_ in ast.walk(fi.node) if isinstance(n_, ast.Name) and isinstance(n_.ctx, ast.Load)}
+            dead = [q.name for q in fi.params if q.name not in ("self", "cls") and not q.name.startswith("_")
+                    and q.name not in reads and q.kind in ("pos", "kwonly")]
+            for u in dead:
+                if (fi.qualname, u) in _DEAD_PARAMS_CONFIRMED:
+                    continue
+                sibs = [g for g in by_name.get(fi.name, []) if g is not fi and g.cls and fi.cls and not g.is_abstract
+                        and not _is_stub(g.node) and any(q.name == u for q in g.params)]
+                if fi.cls and by_name.get(fi.name, []) != [fi] and not sibs:
+                    continue          # an override whose siblings do not take / are stubs for this parameter
+                if sibs:
+                    readers = [g for g in sibs if u in {n_.id for n_ in ast.walk(g.node) if isinstance(n_, ast.Name)
+                                                        and isinstance(n_.ctx, ast.Load)}]
+                    if len(readers) != len(sibs):
+                        continue      # not every sibling reads it either: not a rule for this parameter
+                    why = f"every other implementation of {fi.name} ({', '.join(sorted({g.cls.split('.')[-1] for g in readers}))[:80]}) reads it"
+                else:
+                    why = "nothing else stands in for it"
+                ctx.ob("PARAM-1", f"{fi.qualname}: parameter '{u}' is read", False,
+                       f"'{u}' is accepted and never read in the body of {fi.name}; {why}: the caller's value has no effect",
+                       fi, fi.node.lineno, alias_exact=True)
